@@ -5,7 +5,7 @@
 # (1 = reported). Evidence files are overwritten by these runs; run tools/run_all.sh quick afterwards.
 set -u
 cd "$(dirname "$0")/.."
-out=seeded/matrix.txt
+out=${OUT:-seeded/matrix.txt}
 : > $out   # (a partial run overwrites the file: copy it first if you want to keep the full matrix)
 for d in ${@:-seeded/C*}; do d=$(realpath $d)
     id=$(basename $d)
